@@ -32,8 +32,8 @@ def check_frame(arg):
     for _ in range(base):  # ids need not start at 0
         s.bool_var()
     fr = BoolGridFrame(s, h, w)
-    seg_id = {seg: base + i for i, seg in enumerate(L.segments)}
     case0 = dict(h=h, w=w, base=base)
+    seg_id = None
 
     def fail(sig, case, observed=None, expected=None):
         st.fail(Failure(sig, observed=observed, expected=expected), dict(case0, **case), "c14")
@@ -49,11 +49,17 @@ def check_frame(arg):
     if not ok:
         fail("array-shapes", {}, observed=[list(fr.horizontal.shape), list(fr.vertical.shape)])
         return st
+    # the documented horizontal / vertical arrays define which variable sits on which segment (the order
+    # in which the implementation allocates the variables is not part of the property); every other
+    # accessor is compared with them
+    seg_id = {}
     for seg in L.segments:
         k, y, x = seg
         v = fr.horizontal[y, x] if k == "H" else fr.vertical[y, x]
-        if v.id != seg_id[seg]:
-            fail("array-element-identity", dict(seg=list(seg)), observed=v.id, expected=seg_id[seg])
+        seg_id[seg] = v.id
+    if len(set(seg_id.values())) != len(seg_id):
+        fail("two-segments-share-a-variable", {}, observed=sorted(seg_id.values())[:10])
+        return st
     # doubled coordinates
     for Y in range(-2, 2 * h + 3):
         for X in range(-2, 2 * w + 3):
